@@ -21,7 +21,13 @@
    A context is [h, t]: height and median time of the parent state.
    A signature is the id of the key that made it over the right hash, or -1
    (valid for no key in play); a preimage is the id of the image it hashes
-   to, or -1.                                                               *)
+   to, or -1.
+
+   The numeric parameters (height of above, time of after, timelock and
+   required signatures of uc, n of thresh) are numbers of the specification:
+   unbounded naturals (integers for times).  See "parameters at the size of
+   their machine types" below for how values beyond TLC's 32-bit integers
+   are represented.                                                         *)
 EXTENDS Integers, Sequences, FiniteSets, TLC
 
 P(k, a, b, of, ad) == [k |-> k, a |-> a, b |-> b, of |-> of, ad |-> ad]
@@ -38,6 +44,42 @@ Ctx(h, t)     == [h |-> h, t |-> t]
 MaxPolicies == 1024     \* total number of sub-policies Verify is willing to visit
 MaxWidth    == 255      \* children of one threshold
 MaxDepth    == 32       \* nesting depth the decoder accepts
+
+-----------------------------------------------------------------------------
+(* ---------- parameters at the size of their machine types ----------
+   The code keeps above.a, uc.a (timelock) and uc.b (signatures required) in
+   a uint64, after.a as whole seconds in an int64 (sent as its two's
+   complement uint64) and thresh.a in a uint8.  The meaning of a policy does
+   not know about machine types: above(h) asks for height >= h, after(t) for
+   time > t, uc(T, k, keys) for height >= T and k listed keys, thresh for
+   exactly n revealed children, whatever the size of h, t, T, k, n.
+
+   TLC's integers are 32 bit, so parameters beyond the bounded model travel
+   as value classes.  Every comparison the meaning (and the transcription)
+   makes with such a parameter has a quantity of the bounded model on the
+   other side: a context height or time, the length of a witness or key list,
+   a count of sub-policies.  A class is therefore represented by ONE number
+   that lies on the same side of all those quantities as every member of the
+   class, and the verdict computed for it is the verdict of every member:
+     BIG  greater than every height, time, length and count of the model
+     NEG  (times only) smaller than every time of the model
+   (PolicyMC and PolicyTrace check that the model stays below BIG / above NEG).
+   The members the harness has to instantiate - every one of them, on the
+   real code - are listed here as decimal numerals (strings: they do not fit
+   TLC's integers):                                                         *)
+BIG == 1000000000
+NEG == 0 - 1000000000
+\* uint64 parameters (above, uc timelock, uc signatures required): 2^31, 2^32, 2^63-1, 2^63, 2^64-1
+BigU64 == <<"2147483648", "4294967296", "9223372036854775807", "9223372036854775808", "18446744073709551615">>
+\* after(t), t in seconds since 1970 held in an int64: 2^31, 2^32, the last second whose internal
+\* representation (seconds since year 1) still fits an int64 = 2^63-1-62135596800, the one after it, 2^63-1
+BigI64 == <<"2147483648", "4294967296", "9223371974719179007", "9223371974719179008", "9223372036854775807">>
+\* after(t) below every time of the model: -2^63 (sent as 2^63), -2^63+1, one second before year 1,
+\* -2^32, -1 (sent as 2^64-1; only where the model's times are mapped above 0)
+NegI64 == <<"-9223372036854775808", "-9223372036854775807", "-62135596801", "-4294967296", "-1">>
+\* directly representable boundary values used by PolicyMC: 0, 1, 255, 256 (uint8 boundary), len, len+1
+NumStr(x) == IF x = BIG THEN "B" ELSE IF x = NEG THEN "N" ELSE ToString(x)
+IsClass(x) == x = BIG \/ x = NEG
 
 SigOK(s, i) == s = i
 PreOK(x, i) == x = i
@@ -179,12 +221,12 @@ RECURSIVE KeySeq(_, _)
 KeySeq(ks, i) == IF i > Len(ks) THEN "" ELSE (IF i > 1 THEN "," ELSE "") \o KeyStr(ks[i]) \o KeySeq(ks, i + 1)
 StrSeq(ps, i) == IF i > Len(ps) THEN "" ELSE (IF i > 1 THEN "," ELSE "") \o Str(ps[i]) \o StrSeq(ps, i + 1)
 Str(p) ==
-  CASE p.k = "above"  -> "ab(" \o ToString(p.a) \o ")"
-    [] p.k = "after"  -> "af(" \o ToString(p.a) \o ")"
+  CASE p.k = "above"  -> "ab(" \o NumStr(p.a) \o ")"
+    [] p.k = "after"  -> "af(" \o NumStr(p.a) \o ")"
     [] p.k = "pk"     -> "pk(" \o ToString(p.a) \o ")"
     [] p.k = "hash"   -> "h(" \o ToString(p.a) \o ")"
     [] p.k = "opaque" -> "op(" \o p.ad \o ")"
-    [] p.k = "uc"     -> "uc(" \o ToString(p.a) \o "," \o ToString(p.b) \o ",[" \o KeySeq(p.of, 1) \o "])"
+    [] p.k = "uc"     -> "uc(" \o NumStr(p.a) \o "," \o NumStr(p.b) \o ",[" \o KeySeq(p.of, 1) \o "])"
     [] p.k = "thresh" -> "th(" \o ToString(p.a) \o ",[" \o StrSeq(p.of, 1) \o "])"
 \* Address term: the text of what is hashed.  Unlock conditions keep their
 \* legacy address (the harness evaluates the uc term with the v1 unlock hash);
